@@ -933,10 +933,14 @@ class Symx:
                 e = strip(s['e'])
                 cc0 = (e.get('callee') or {}) if e['k'] == 'Call' else {}
                 if e['k'] == 'Call' and cc0.get('inrepo') and cc0.get('q') in self.inline and cc0.get('ret') == 'void' \
-                        and e.get('kind') == 'func' and self.depth < self.inline_depth:
+                        and (e.get('kind') == 'func' or (e.get('kind') == 'method' and strip(e.get('obj', {})).get('k') == 'This')) \
+                        and self.depth < self.inline_depth:
                     callee = self.prog.by_sig(cc0.get('sig'))
                     if callee is not None:
                         sub = State({}, list(st.conds))
+                        for k_, v_ in st.env.items():
+                            if isinstance(k_, str) and k_.startswith('this.'):
+                                sub.env[k_] = v_
                         for p, a in zip(callee.params, e['args']):
                             sub.env[p['id']] = self.rvalue(a, st)
                         self.depth += 1
@@ -950,6 +954,9 @@ class Symx:
                                 continue
                             st2 = st.fork()
                             st2.conds = list(o.state.conds)
+                            for k_, v_ in o.state.env.items():
+                                if isinstance(k_, str) and k_.startswith('this.'):
+                                    st2.env[k_] = v_
                             for p, a in zip(callee.params, e['args']):
                                 if p.get('byref') and not p.get('constref') and p['id'] in o.state.env:
                                     self.assign(a, o.state.env[p['id']], st2)
@@ -1097,7 +1104,7 @@ class Symx:
                         tgt = n['e']
                     elif n['k'] == 'Call' and n.get('kind') == 'method' and not (n.get('callee') or {}).get('const'):
                         tgt = n['obj']
-                    elif n['k'] == 'Call':
+                    if n['k'] == 'Call':
                         for i in (n.get('callee') or {}).get('mutrefs', []):
                             if i < len(n.get('args', [])):
                                 t2 = strip(n['args'][i])
